@@ -15,8 +15,8 @@ RULE = ('every atom text of length <= 3 [thorough: 4] over the 17 characters {a 
         'argument of a rule, and as a body-goal argument, then (1) read back through a query: structure equals the '
         'literal\'s term and to_python equals the reference value (name / int / list / (name,[args]) / None); (2) the '
         'same term built with atom/functor/listpair/makelist through the API is used as query argument: exactly one '
-        'answer, and the compiled literal read back unifies with it; (3) atoms: yp.atom(n) is yp.atom(n), and atoms of two '
-        'engines with the same name unify; (4) every _ is a distinct variable. states = distinct (literal class, '
+        'answer, and the compiled literal read back unifies with it; (3) atoms: yp.atom(n) is yp.atom(n); atoms and whole terms built on two '
+        'engines unify with each other and with each other\'s compiled literals and dynamic facts, also on an engine that was cleared before loading; (4) every _ is a distinct variable. states = distinct (literal class, '
         'outcome) observations; transitions = queries; non-trivial = the literal needs quoting, is a list or contains a variable')
 ASSUMPTIONS = ['the generator starts from a TERM, prints it in the documented syntax (\' written as \\\', no other '
                'backslashes) and knows the value to_python must return (RefLiteral)',
@@ -139,9 +139,42 @@ def check_batch(batch):
         idx, cls, term, text = batch[0]
         return [(idx, 'violation', 'compile-or-load-raises:' + type(e).__name__, 'literal %s: source %r\nraised %r' % (pp(term), src[:200], e), None)]
     yp2 = impl.YP()
+    # an engine that was cleared before the script was loaded (clear() rebuilds the atom table)
+    ypc = impl.YP()
+    ypc.atom('a')
+    ypc.clear()
+    ypc.load_script_from_string(py, fn=impl.SCRIPT_FN)
     for j, (idx, cls, term, text) in enumerate(batch):
-        results.append((idx,) + check_literal(yp, yp2, j, cls, term, text))
+        r = check_literal(yp, yp2, j, cls, term, text)
+        if r[0] == 'ok':
+            r2 = check_cross(yp, yp2, ypc, j, term, text)
+            if r2 is not None:
+                r = r2 + (None, r[4])
+        results.append((idx,) + r)
     return results
+
+
+def check_cross(yp, yp2, ypc, j, term, text):
+    """terms of two engines, and of an engine that was cleared, denote the same terms"""
+    lit = text if text is not None else show_term(term)
+    t1 = impl.to_engine(yp, term, {})
+    t2 = to_engine_makelist(yp2, term, {})
+    n = len(list(impl.engine.unify(t1, t2)))
+    if n != 1:
+        return ('violation', 'terms-of-two-engines-do-not-unify', 'the term %s built on two different engines unifies %d times instead of once' % (pp(term), n))
+    n = len(list(yp.query('l%d' % j, [to_engine_makelist(yp2, term, {})])))
+    if n != 1:
+        return ('violation', 'literal-does-not-match-term-of-other-engine', 'the compiled literal %r matches the same term built on another engine %d times instead of once' % (lit, n))
+    yp.assert_fact(yp.atom('dyn%d' % j), [impl.to_engine(yp2, term, {})])
+    n = len(list(yp.query('dyn%d' % j, [impl.to_engine(yp, term, {})])))
+    if n != 1:
+        return ('violation', 'fact-of-other-engines-term-does-not-match', 'a dynamic fact holding %s built on another engine matches the engine\'s own term %d times' % (pp(term), n))
+    for builder in (impl.to_engine, to_engine_makelist):
+        n = len(list(ypc.query('l%d' % j, [builder(ypc, term, {})])))
+        if n != 1:
+            return ('violation', 'after-clear:api-term-does-not-match-literal', 'on an engine that was cleared before loading, the term %s built through the API (%s) matches the compiled literal %r %d times instead of once'
+                    % (pp(term), builder.__name__, lit, n))
+    return None
 
 
 def check_literal(yp, yp2, j, cls, term, text):
